@@ -4,7 +4,7 @@ import json, os
 V = os.path.dirname(os.path.dirname(os.path.abspath(__file__)))
 ids = [json.loads(l)["id"] for l in open(os.path.join(V, "properties.jsonl"))]
 
-TRUST = ("Trusted: Verus+Z3, rustc front end, the vx extractor (rewrite rules R0-R40 logged per run), the prelude "
+TRUST = ("Trusted: Verus+Z3, rustc front end, the vx extractor (rewrite rules R0-R41 logged per run), the prelude "
          "stand-ins for dependencies (listed per run in evidence.trusted_base). ")
 
 SMNOTE = (TRUST + "State-machine group: the embedder traits (Storage, PolicyEngine, Installer, Timer, TimeSource, MetricsReporter, HttpRequest, "
@@ -103,7 +103,7 @@ CLAIMS = {
    technique="contract-based deductive verification (Verus) with ghost interaction logs", design="4/C12"),
  "C14": dict(
    text="Proof (Verus): absence of panics/overflow (arithmetic, unwrap, index, callee preconditions) in every verified state-machine unit including the 475-line perform_update_check, Context::load on arbitrary stored integers, "
-        "the time conversions, with all environment answers and all storage results unconstrained; the response-body guard stripper parse_safe_json by a Kani harness on its extracted text (bounded: bodies up to 12 bytes, labelled).",
+        "the time conversions, with all environment answers and all storage results unconstrained; the response-body guard stripper parse_safe_json is proved in Verus for bodies of ANY length (group resp: the decoder receives the body minus the 5-byte XSSI guard iff the body starts with it, else the whole body; the slice index is in bounds; the byte-string literal's contents come from a generated helper contract, R41; serde_json::from_slice is an uninterpreted function of the bytes it is handed); the earlier Kani harness (bodies up to 12 bytes) is kept as a bounded cross-check, labelled and not counted.",
    note=SMNOTE + "Dependencies (serde_json, http, hyper) and termination of run are out of scope; pinned fragments are assumed panic-free under their stated preconditions.",
    technique="contract-based deductive verification (Verus): safety obligations of every unit", design="4/C14", kani=True),
  "C18": dict(
